@@ -16,7 +16,7 @@ RULE = ("a FakeBLE object on a simulated radio; a case = (MAC form, name None/st
         "len_available() and the ValueError boundary are compared with the decoded packet. "
         "Non-trivial: a packet was decoded or a rejection observed; distinct = (name length/type, "
         "pa flag/level, chunk lengths, form, channel history).")
-RULE += (" Later rounds added: the MAC as assigned (ints with zero upper bytes; either byte order), repeated advertisements with the same chunk objects and the TX power changed in between, another object setting its own static payload length in its block, the BLE object's attributes read between blocks, the public CRC helper used with another polynomial first, a captured advertisement (of the tuned or another BLE channel) examined with available() before advertising.")
+RULE += (" Later rounds added: the MAC as assigned (ints with zero upper bytes; either byte order), repeated advertisements with the same chunk objects and the TX power changed in between, another object setting its own static payload length in its block, the BLE object's attributes read between blocks, the public CRC helper used with another polynomial first, a captured advertisement (of the tuned or another BLE channel) examined with available() before advertising; earlier shorter advertisements of the same object on the same channel (a packet that grows), the radio re-tuned by the other object outside any with block followed by an explicit channel assignment (with and without print_details() in between).")
 REQUIRED = {"decoded_by_phone": 800, "fields_match": 800, "len_available": 800,
             "valueerror_boundary": 300, "channel_histories": 300}
 BUDGET = {"quick": 480, "thorough": 900}
@@ -25,6 +25,7 @@ BUDGET = {"quick": 480, "thorough": 900}
 def gen_cases(ctx):
     rng = ctx.sub_rng("c18")
     rng2 = ctx.sub_rng("c18b")  # later additions draw from their own stream
+    rng3 = ctx.sub_rng("c18c")
     n = 6000 if ctx.tier == "quick" else 200000
     for i in range(n):
         name_len = rng.choice([None, None, 0, 1, 3, 8, 14, 15, 16, 17, 18, 19, 20, rng.randrange(0, 21)])
@@ -56,6 +57,18 @@ def gen_cases(ctx):
             # the module's public CRC helper used for something else first (another polynomial)
             hist.insert(rng2.randrange(len(hist) + 1), ["crc_other", rng2.choice([0x5B06, 0x1021, 0x864CFB]),
                                                          rng2.randrange(1 << 16)])
+        if rng3.random() < 0.3:
+            # an earlier, shorter advertisement of the same object (no data chunk) on whatever
+            # channel it is tuned to at that point of the history - a beacon whose packet grows
+            for _ in range(rng3.choice([1, 1, 2, 3])):
+                hist.insert(rng3.randrange(len(hist) + 1), ["adv_small"])
+        if rng3.random() < 0.2:
+            # the other object on the chip re-tunes the radio WITHOUT the with discipline (optionally
+            # print_details() re-reads the registers), then the beacon is explicitly assigned a BLE
+            # frequency: after that assignment radio and whitening agree again, whatever was recorded
+            for _ in range(rng3.choice([1, 1, 2])):
+                hist.insert(rng3.randrange(len(hist) + 1),
+                            ["retune", rng3.choice([2, 26, 80]), rng3.random() < 0.5, rng3.choice([2, 26, 80])])
         yield {"name_len": name_len, "name_type": rng.choice(["str", "bytes", "bytearray"]),
                "pa": rng.random() < 0.4, "pa_level": rng.choice([-18, -12, -6, 0]),
                "pa_first": rng.random() < 0.5,
@@ -171,6 +184,34 @@ def run_case(ctx, case):
                         return
                     radio.rx_fifo.clear()
                     ctx.count("captured_frames_examined_%s" % ("on_the_tuned_channel" if h[1] == 0 else "from_another_channel"))
+            elif h[0] == "adv_small":
+                air_w = len(rig.air.log)
+                node.deadline = node.t + 200 * W.MS
+                try:
+                    ble.advertise()
+                except ValueError:
+                    pass
+                finally:
+                    node.deadline = None
+                node.idle(1 * W.MS)
+                for pw in [x for x in rig.air.log[air_w:] if x.kind == "data"]:
+                    ctx.clause("earlier_shorter_advertisement")
+                    dw = ble_ref.phone_decode(pw.addr, pw.payload, pw.ch)
+                    if not dw["ok"]:
+                        alt = [c for c in (2, 26, 80) if c != pw.ch and ble_ref.phone_decode(pw.addr, pw.payload, c)["ok"]]
+                        ctx.violation("whitened-for-other-channel" if alt else "not-decodable",
+                                      "an advertisement without data chunks sent on RF_CH %d is not a valid BLE packet "
+                                      "for that channel: %s" % (pw.ch, dw.get("why")), case)
+                        return
+            elif h[0] == "retune":
+                import contextlib
+                import io
+                other.channel = h[1]
+                if h[2]:
+                    with contextlib.redirect_stdout(io.StringIO()):
+                        ble.print_details()
+                ble.channel = h[3]
+                ctx.clause("assignment_after_foreign_retune")
             elif h[0] == "crc_other":
                 import random as _r
                 buf = bytes(_r.Random(h[2]).randrange(256) for _ in range(40))
